@@ -8,7 +8,9 @@ TR = ["H layer of ONE image element: Hstartaccess/HCcreate/HRPconvert/HBconvert/
       "DFKNTsize (size table), DFKgetPNSC (arbitrary), DFKconvert = byte copy (C06 owns the conversion)",
       "HDmemfill: materialises the ghost item only (cbmc); HCPgetcompinfo/HCget_config_info arbitrary results",
       "tbbtfirst/tbbtnext/tbbtdfind: attribute tree with at most the FillValue attribute (A-TBBT); strcmp: exact, unrolled to 10 characters"]
-RW = dict(unit="mfgr_rw_u.c", file="hdf/src/mfgr.c", cex_unwind=5, trusted=TR)
+IL = ("ASSUMED: GRIil_convert replaced by its contract (ghost-element permutation clause; checked bounded by obligations "
+      "GRIil_convert_* of c09_gr.py for extents <= 3, <= 3 components, sizes 1..2); its requires are checked at the call sites")
+RW = dict(unit="mfgr_rw_u.c", file="hdf/src/mfgr.c", cex_unwind=5, replace=["GRIil_convert"], trusted=TR + [IL])
 BND = ("xdim,ydim in 1..4, start in -1..4, x and y strides independent in 0..3 (or no stride array), counts in 0..3, "
        "pixel size = {ps} bytes ({n} component(s) of {cs} byte(s)), pixel interlace in memory; image with data / tag-ref only / nothing, "
        "access element closed / open read-only / open read-write at any position")
@@ -21,7 +23,6 @@ for n, cs in ((1, 1), (1, 2), (3, 1)):
        bound=b + "; request inside the image; existing image, or new image without filling", defines=d + ["RW_NOFILL"], unwind=4, **RW)
     ob(f"GRwriteimage_fill_p{n * cs}", "C09", entry="h_GRwriteimage", enforce="GRwriteimage", mode="bounded",
        bound=b + "; request inside the image; first write of a new image with filling", defines=d + ["RW_FILL"], unwind=5, **RW)
-ob("T_rd_noconv", "C09", entry="h_GRreadimage", enforce="GRreadimage", mode="bounded", bound="trial", defines=["RW_NOCONV"], unwind=4, **RW)
 # requests reaching outside the image / invalid arguments: refused before any I/O
 ob("GRreadimage_outside", "C09", entry="h_GRreadimage", enforce="GRreadimage", mode="bounded",
    bound=BND.format(ps=1, n=1, cs=1) + "; request reaching outside the image", defines=["RW_OUTSIDE"], unwind=4, **RW)
